@@ -195,7 +195,7 @@ def run(rep, tier):
                 "get/get_many/getnext/getbulk/refresh x nb/sync/async, hit by 1..3 mutations (truncate, length-octet attacks, long-form "
                 "tags, hostile inserts such as empty varbind / empty, short and relative OIDs, tag rewrites, deletions, flips) applied "
                 "to the whole datagram, to the PDU before wrapping, to the scoped PDU before encryption, plus wrong salt lengths, "
-                "Reports and random bytes. Non-trivial = datagram passes the outer SEQUENCE+version check of the session's version; "
+                "Reports and random bytes; msgFlags varied independently of the body; half of the cases reuse a pooled session; walk replies may carry prefixes of OIDs accepted earlier. Non-trivial = datagram passes the outer SEQUENCE+version check of the session's version; "
                 "distinct by (cfg, op, datagram). E3: libFuzzer+ASan campaigns on the real receive path and on the decoders.")
     rep.assumptions = ["loopback UDP delivery is synchronous (nb driver)", "reference codec/crypto build the seed replies"]
 
